@@ -654,7 +654,7 @@ def run(ctx):
         "Drivers/Sem.lean on every input)",
         "Check_ParallelizeLoop / SMT (modelled as an oracle; its verdicts are tested by B)",
     ]
-    broken = ctx.lean_obligations(["ExoModel.Props.C09"])
+    broken = ctx.lean_obligations(["ExoModel.Props.C09", "ExoModel.Props.C09Sem"])
     for b in broken:
         ctx.violation(f"obligation:{b}", f"proof obligation broken: {b}", {"obligation": b}, no_input=True)
 
